@@ -14,7 +14,7 @@ RULE = ("seeded random pairs of real projects over the universe of the property 
         "project documents overlapping / nested / conflicting / mixed-type) x options (strategy None/always/never/update/custom, "
         "doc_sync default/ByKey(pred|regex)/update/NO_SYNC/COPY, recursive, exclude str/list, selection by id/job incl. foreign "
         "ids, check_schema) x entry point (Project.sync, sync_projects, Job.sync, sync_jobs incl. uninitialised jobs and jobs with "
-        "different state points); plus the one-file core family (content x mtime x strategy x depth x recursive x entry), deep trees whose intermediate levels are identical (difference 3-5 levels down) stale document backup files and a ByKey() instance the caller reuses after a call that raised; every "
+        "different state points); plus the one-file core family (content x mtime x strategy x depth x recursive x entry), deep trees whose intermediate levels are identical (difference 3-5 levels down) stale document backup files excluded names inside cloned jobs / left-only directories / as directory names / matching signac's own files (exclude None, str, list), and a ByKey() instance the caller reuses after a call that raised; every "
         "successful call is repeated on the tree it left.  non-trivial: the call changed the destination or raised; distinct by "
         "the JSON of the scenario")
 TRUSTED = [
@@ -38,7 +38,12 @@ def gen_inputs(tier, rng):
     core, nested, backup = sync_gen.core_file_cases(), sync_gen.core_nested_cases(), sync_gen.core_backup_cases()
     if tier == "quick":
         core, nested, backup = rng.sample(core, 80), rng.sample(nested, 90), rng.sample(backup, 40)
-    return descs + core + nested + backup + sync_gen.core_reuse_cases()
+    return descs + core + nested + backup + _excl(tier, rng) + sync_gen.core_reuse_cases()
+
+def _excl(tier, rng):
+    cases = sync_gen.core_exclude_cases()
+    return cases if tier != "quick" else rng.sample(cases, 70)
+
 
 def run_case(desc):
     return sync_gen.run_scenario(desc, PROP)
